@@ -205,6 +205,19 @@ def run(ctx):
         # model correspondence for the protected-target cases (user cases: model needs contents)
         if case['target'] is not None:
             keep.append((case, ob))
+    # one bare name instead of a sequence of names
+    B = [dict(kind='Array', names=list(APROT)), dict(kind='RaggedArray', names=[n for n in RPROT if '/' not in n] +
+                                                                           ['values/arrayvalues.bin', 'indices/arraydescription.json'])]
+    for case, ob in zip(B, ctx.run_impl(B, 'bare_names')):
+        if isinstance(ob, dict):
+            ctx.fail('harness-error', dict(kind=case['kind'], scenario='bare name'), observed=ob); continue
+        for o in ob[:-1]:
+            key = dict(kind=case['kind'], m='delete_files', name=o['name'], form='one bare ' + o['form'])
+            ctx.seen(key); ctx.count('bare-name'); ctx.evaluations += 1
+            if not o['unchanged']:
+                ctx.fail('protected-file-touched:delete_files', key, expected='directory byte-identical', observed=o)
+        if ob[-1]['final'] != 'ok':
+            ctx.fail('array-damaged', dict(kind=case['kind'], scenario='bare name'), observed=ob[-1])
     # build terms: need the tree before each op = initial tree (protected ops change nothing)
     for case, ob in keep:
         base = '/B/arr'
